@@ -100,6 +100,22 @@ def run(tier, rnd, out):
     rt = [dec_impl(int(enc_impl(1, l)[3:], 16)) if enc_impl(1, l) != "raised" else "raised" for l in subs]
     want = ["ok " + "".join(map(str, l)) for l in subs]
     lib.differential(out, "decode-after-encode", [{"days": l} for l in subs], rt, None, want, lambda c: "decode(encode(%s))" % c["days"], sample=lambda c: c)
+    # the same requests with the parameter named (its documented name `days`), from a dict, and for the decoder `sum_weekdays_bit`
+    def kw(f, l):
+        arg = DAYS[l[0]] if f == 0 else {DAYS[i] for i in l} if f == 1 else [DAYS[i] for i in l]
+        outs = []
+        for call in (lambda: tools.weekdays_to_hexadecimal(days=arg), lambda: tools.weekdays_to_hexadecimal(**{"days": arg})):
+            try: outs.append("ok " + call())
+            except Exception: outs.append("raised")
+        return outs[0] if outs[0] == outs[1] else "keyword %s, dict %s" % tuple(outs)
+    sel = [(f, l) for f, l in cs if f in (0, 1, 2) and l][::7][:400] + [(2, [0, 0]), (2, [3, 1, 3]), (0, [6]), (1, [0, 6])]
+    lib.differential(out, "encode-with-the-parameter-named", [{"form": f, "days": l} for f, l in sel], [kw(f, l) for f, l in sel], lib.run_model([lib.req("weekdays", f, l) for f, l in sel]),
+                     lib.run_model([lib.req("weekdays_spec", f, l) for f, l in sel]), lambda c: "weekdays_to_hexadecimal(days=%s of %s)" % (["single day", "set", "list"][c["form"]], c["days"]), sample=lambda c: c)
+    def dkw(n):
+        try: return "ok " + "".join(str(i) for i in sorted(DAYS.index(d) for d in tools.bit_summary_to_days(sum_weekdays_bit=n)))
+        except Exception: return "raised"
+    lib.differential(out, "decode-with-the-parameter-named", [{"mask": n} for n in ms], [dkw(n) for n in ms], lib.run_model([lib.req("bitsum", n) for n in ms]),
+                     lib.run_model([lib.req("bitsum_spec", n) for n in ms]), lambda c: "bit_summary_to_days(sum_weekdays_bit=%d)" % c["mask"], sample=lambda c: c)
     # ... and the other way: the decoder's own result handed to the encoder as it comes (whatever container type it is)
     def back(m):
         try: return "ok " + tools.weekdays_to_hexadecimal(tools.bit_summary_to_days(m))
